@@ -4,6 +4,7 @@ import (
 	"bufio"
 	"bytes"
 	"context"
+	"crypto/hmac"
 	"crypto/sha256"
 	"encoding/base64"
 	"encoding/hex"
@@ -21,10 +22,12 @@ import (
 	"sort"
 	"strconv"
 	"strings"
+	"sync"
 	"time"
 
 	"github.com/nuetzliches/hookaido/internal/app"
 	"github.com/nuetzliches/hookaido/internal/dispatcher"
+	"github.com/nuetzliches/hookaido/internal/mcp"
 	"github.com/nuetzliches/hookaido/internal/queue"
 	workerapipb "github.com/nuetzliches/hookaido/internal/workerapi/proto"
 	"google.golang.org/grpc"
@@ -56,6 +59,9 @@ type Op struct {
 	Form    string  `json:"form,omitempty"`
 	K       string  `json:"k,omitempty"`
 	Sz      string  `json:"sz,omitempty"`
+	Fan     bool    `json:"fan,omitempty"`
+	Sg      bool    `json:"sg,omitempty"`
+	By      string  `json:"by,omitempty"`
 }
 
 type Schedule struct {
@@ -120,6 +126,11 @@ type journey struct {
 	conn    *grpc.ClientConn
 
 	leaseID   string
+	nextRun   time.Time
+	msgIDs    []string // all stored copies of the message (two on a fan-out route)
+	managed   bool     // the route carries management labels (endpoint-scoped Admin API paths)
+	route     Route
+	nmu       sync.Mutex // guards noise / nother (other traffic may run inside the push target's handler)
 	msgID     string
 	ncomp     int
 	recvAt    time.Time         // received_at of the message (filter operations select it by "before")
@@ -279,7 +290,9 @@ func (j *journey) start(name string) error {
 	j.r.Aux.register(j.jid, j.x)
 	j.cfgPath = filepath.Join(j.r.Scratch, j.jid+".hk")
 	j.dbPath = filepath.Join(j.r.Scratch, j.jid+".db")
-	cfg := ConfigText(in.Be, in.Mode, in.Lim, in.Fwd, j.r.Aux.URL(), j.jid)
+	j.managed = in.Src == "mpublish"
+	j.route = Route{Backend: in.Be, Mode: in.Mode, Lim: in.Lim, Fwd: in.Fwd, Managed: j.managed, Fan: in.Fan, Signed: in.Sg}
+	cfg := ConfigText(j.route, j.r.Aux.URL(), j.jid, "127.0.0.3:0")
 	if err := os.WriteFile(j.cfgPath, []byte(cfg), 0o644); err != nil {
 		return err
 	}
@@ -288,7 +301,7 @@ func (j *journey) start(name string) error {
 		return err
 	}
 	// publish: trace map of the message (seeded choice) and the siblings of the request shape
-	if in.Src == "publish" {
+	if in.Src != "ingress" {
 		if pick(j.r.Seed, j.jid, "mtrace", 2) == 0 {
 			j.mtrace = map[string]string{"trace_id": "m-" + j.jid, "origin": "fid m,1"}
 		}
@@ -296,6 +309,9 @@ func (j *journey) start(name string) error {
 			Headers: map[string]string{"X-Sib": "sibling one, with", "Content-Type": "text/x-sibling"},
 			Trace:   map[string]string{"trace_id": "sib-with", "sib": "1"}}
 		bare := sibling{ID: "sib_" + j.jid + "_bare", Route: "/aux", Payload: []byte("sibling- bare\xff " + j.jid)}
+		if j.managed {
+			with.Route, bare.Route = "/in", "/in"
+		}
 		switch in.PB {
 		case "after":
 			j.sibs = []sibling{with}
@@ -319,16 +335,17 @@ func (j *journey) start(name string) error {
 	}
 	ev := map[string]any{
 		"c": map[string]any{"src": in.Src, "pc": in.PC, "hc": in.HC, "be": in.Be, "mode": in.Mode, "via": in.Via,
-			"lim": in.Lim, "fwd": in.Fwd, "pb": in.PB, "maxBody": j.maxBody, "maxHdr": j.maxHdr},
-		"pl":    Digest(j.payload, j.payload),
-		"recv":  j.recv,
-		"auth":  auth,
-		"copy":  copyNames,
-		"names": j.names,
-		"vals":  j.vals,
-		"name":  name,
-		"mt":    HeaderList(j.mtrace),
-		"xsibs": sibExp,
+			"lim": in.Lim, "fwd": in.Fwd, "pb": in.PB, "fan": in.Fan, "sg": in.Sg, "maxBody": j.maxBody, "maxHdr": j.maxHdr},
+		"pl":        Digest(j.payload, j.payload),
+		"recv":      j.recv,
+		"auth":      auth,
+		"copy":      copyNames,
+		"names":     j.names,
+		"vals":      j.vals,
+		"name":      name,
+		"mt":        HeaderList(j.mtrace),
+		"signnames": []string{CanonName(nameLower["sig"]), CanonName(nameLower["sigts"])},
+		"xsibs":     sibExp,
 	}
 	j.emitRaw("Start", ev)
 	return nil
@@ -473,7 +490,12 @@ func (j *journey) dump() (rows []row, sibs []row, other int, err error) {
 		}
 		rows = append(rows, row{ID: e.ID, St: string(e.State), PL: Digest(e.Payload, j.payload), H: h, T: HeaderList(e.Trace),
 			Leak: Leaks(j.secrets, texts...)})
-		j.recvAt = e.ReceivedAt
+		if e.ReceivedAt.After(j.recvAt) {
+			j.recvAt = e.ReceivedAt
+		}
+		if e.NextRunAt.After(j.nextRun) {
+			j.nextRun = e.NextRunAt
+		}
 	}
 	return rows, sibs, other, nil
 }
@@ -499,7 +521,9 @@ func (j *journey) emitRaw(ev string, fields map[string]any) {
 	fields["sibs"] = sibs
 	fields["other"] = other
 	seen := append([]noiseMsg{}, j.seenNoise...)
+	j.nmu.Lock()
 	want := append([]noiseMsg{}, j.noise...)
+	j.nmu.Unlock()
 	sortNoise(seen)
 	sortNoise(want)
 	fields["noise"] = seen
@@ -511,8 +535,12 @@ func (j *journey) emitRaw(ev string, fields map[string]any) {
 	j.r.Out.Write(ASCIIJSON(b))
 	j.r.Out.WriteByte('\n')
 	j.r.Events++
-	if len(rows) == 1 {
+	if len(rows) >= 1 {
 		j.msgID = rows[0].ID
+		j.msgIDs = j.msgIDs[:0]
+		for _, r := range rows {
+			j.msgIDs = append(j.msgIDs, r.ID)
+		}
 	}
 }
 
@@ -532,6 +560,7 @@ func (j *journey) obs(errText string, n int, payload []byte, h []HV, extra map[s
 	if n == 0 {
 		r["pl"] = PL{D: "", N: 0, Diff: -1}
 	}
+	r["f"] = noF()
 	for k, v := range extra {
 		r[k] = v
 	}
@@ -558,7 +587,10 @@ func (j *journey) submit() error {
 			errText = err.Error()
 		}
 	case "api":
-		item := map[string]any{"id": "pub_" + j.jid, "route": "/in"}
+		item := map[string]any{"id": "pub_" + j.jid}
+		if !j.managed {
+			item["route"] = "/in" // the endpoint-scoped path takes route and target from the URL
+		}
 		if len(j.payload) > 0 || pick(j.r.Seed, j.jid, "emptyb64", 2) == 0 {
 			item["payload_b64"] = base64.StdEncoding.EncodeToString(j.payload)
 		}
@@ -573,7 +605,14 @@ func (j *journey) submit() error {
 			item["trace"] = j.mtrace
 		}
 		sibItem := func(sb sibling) map[string]any {
-			it := map[string]any{"id": sb.ID, "route": sb.Route, "payload_b64": base64.StdEncoding.EncodeToString(sb.Payload)}
+			it := map[string]any{"id": sb.ID, "payload_b64": base64.StdEncoding.EncodeToString(sb.Payload)}
+			if j.managed {
+				// same route as the message: a received_at (= next_run_at) far in the future keeps it from being
+				// offered to consumers and out of the operator filters of the journey
+				it["received_at"] = "2099-01-01T00:00:00Z"
+			} else {
+				it["route"] = sb.Route
+			}
 			if sb.Headers != nil {
 				it["headers"] = sb.Headers
 			}
@@ -591,8 +630,26 @@ func (j *journey) submit() error {
 		case "middle":
 			items = []any{sibItem(j.sibs[0]), item, sibItem(j.sibs[1])}
 		}
+		if in.Src == "mcp" {
+			// the MCP tool messages_publish: direct SQLite mode (SQLite) or admin-proxy mode (memory)
+			res, isErr, err := j.mcpCall("messages_publish", map[string]any{"items": items, "reason": "fidelity check"})
+			switch {
+			case err != nil:
+				status, errText = 0, err.Error()
+			case !isErr:
+				status = 200
+			case strings.Contains(res, "exceed"):
+				status, errText = 413, res
+			default:
+				status, errText = 500, res
+			}
+			if len(errText) > 300 {
+				errText = errText[:300]
+			}
+			break
+		}
 		body, _ := json.Marshal(map[string]any{"items": items})
-		req := httptest.NewRequest(http.MethodPost, "http://admin.test/messages/publish", bytes.NewReader(body))
+		req := httptest.NewRequest(http.MethodPost, "http://admin.test"+j.publishPath(), bytes.NewReader(body))
 		req.Header.Set("Content-Type", "application/json")
 		req.Header.Set("X-Hookaido-Audit-Reason", "fidelity check")
 		rec := httptest.NewRecorder()
@@ -743,7 +800,18 @@ func sortNoise(n []noiseMsg) {
 // with other values, over any framing, or a publish batch.  Nothing of it may show in the followed message, and the
 // other messages must be stored as sent, too.
 func (j *journey) other(op Op) error {
+	sent, accepted := j.otherTraffic(op, 0)
+	j.emit("Other", map[string]any{"k": op.K, "sz": op.Sz}, map[string]any{"sent": sent, "accepted": accepted})
+	return nil
+}
+
+func (j *journey) otherTraffic(op Op, max int) (int, int) {
+	j.nmu.Lock()
+	defer j.nmu.Unlock()
 	reps := 3
+	if max > 0 {
+		reps = max
+	}
 	if len(j.payload) > 64<<10 {
 		reps = 1
 	}
@@ -796,8 +864,7 @@ func (j *journey) other(op Op) error {
 			j.noise = append(j.noise, noiseMsg{D: p.D, N: p.N, H: mapDigest(hdr)})
 		}
 	}
-	j.emit("Other", map[string]any{"k": op.K, "sz": op.Sz}, map[string]any{"sent": sent, "accepted": accepted})
-	return nil
+	return sent, accepted
 }
 
 // ---------------------------------------------------------------- pull side
@@ -958,13 +1025,84 @@ func (j *journey) publishCompanion() (string, []byte, error) {
 	j.ncomp++
 	id := fmt.Sprintf("%s%s_%d", compPrefix, j.jid, j.ncomp)
 	p := j.compPayload(j.ncomp)
-	item := map[string]any{"id": id, "route": "/in", "payload_b64": base64.StdEncoding.EncodeToString(p), "headers": compHeaders}
+	item := map[string]any{"id": id, "payload_b64": base64.StdEncoding.EncodeToString(p), "headers": compHeaders}
+	if !j.managed {
+		item["route"] = "/in"
+	}
+	if j.in.Fan {
+		item["target"] = j.r.Aux.URL() + "/t/" + j.jid // a route with several targets wants the target named
+	}
 	body, _ := json.Marshal(map[string]any{"items": []any{item}})
-	code, resp := j.admin(http.MethodPost, "/messages/publish", string(body))
+	code, resp := j.admin(http.MethodPost, j.publishPath(), string(body))
 	if code != 200 {
 		return "", nil, fmt.Errorf("companion publish: status %d %s", code, strings.TrimSpace(string(resp)))
 	}
 	return id, p, nil
+}
+
+func (j *journey) scoped(suffix string) string {
+	return "/applications/" + mgApp + "/endpoints/" + mgEndpoint + suffix
+}
+
+// publishPath: the global publish path, or the endpoint-scoped one on a managed route
+func (j *journey) publishPath() string {
+	if j.managed {
+		return j.scoped("/messages/publish")
+	}
+	return "/messages/publish"
+}
+
+// mcpCall runs one tool call on an MCP server built like `hookaido mcp` builds it (role operate, mutations on).  On
+// the SQLite backend it works on the database file itself (direct mode, next to the running instance); on the memory
+// backend it reads a copy of the configuration that names the real admin listener and proxies to the Admin API.
+func (j *journey) mcpCall(tool string, args map[string]any) (string, bool, error) {
+	cfgPath, dbPath := j.cfgPath, j.dbPath
+	if j.in.Be == "memory" {
+		cfgPath = j.cfgPath + ".mcp"
+		if err := os.WriteFile(cfgPath, []byte(ConfigText(j.route, j.r.Aux.URL(), j.jid, j.inst.Addrs["admin_api"])), 0o644); err != nil {
+			return "", false, err
+		}
+		defer os.Remove(cfgPath)
+		dbPath = ""
+	}
+	req := map[string]any{"jsonrpc": "2.0", "id": 1, "method": "tools/call", "params": map[string]any{"name": tool, "arguments": args}}
+	payload, _ := json.Marshal(req)
+	var in bytes.Buffer
+	fmt.Fprintf(&in, "Content-Length: %d\r\n\r\n", len(payload))
+	in.Write(payload)
+	var out bytes.Buffer
+	srv := mcp.NewServer(&in, &out, cfgPath, dbPath, mcp.WithRole(mcp.RoleOperate), mcp.WithPrincipal("fidelity"),
+		mcp.WithMutationsEnabled(true), mcp.WithAuditWriter(io.Discard), mcp.WithAdminProxyEndpointAllowlist(nil))
+	if err := srv.Serve(context.Background()); err != nil {
+		return "", false, err
+	}
+	raw := out.Bytes()
+	if i := bytes.Index(raw, []byte("\r\n\r\n")); i >= 0 {
+		raw = raw[i+4:]
+	}
+	var rep struct {
+		Result struct {
+			Content []struct {
+				Text string `json:"text"`
+			} `json:"content"`
+			Structured json.RawMessage `json:"structuredContent"`
+			IsError    bool            `json:"isError"`
+		} `json:"result"`
+		Error *struct {
+			Message string `json:"message"`
+		} `json:"error"`
+	}
+	if err := json.Unmarshal(raw, &rep); err != nil {
+		return "", false, fmt.Errorf("mcp reply: %w", err)
+	}
+	if rep.Error != nil {
+		return rep.Error.Message, true, nil
+	}
+	text := string(rep.Result.Structured)
+	if len(rep.Result.Structured) == 0 && len(rep.Result.Content) > 0 {
+		text = rep.Result.Content[0].Text
+	}
+	return text, rep.Result.IsError, nil
 }
 
 func (j *journey) cancelCompanion(id string) {
@@ -1174,22 +1312,53 @@ func (j *journey) admin(method, target string, body string) (int, []byte) {
 	return rec.Code, rec.Body.Bytes()
 }
 
+func (j *journey) idsJSON() string {
+	b, _ := json.Marshal(j.msgIDs)
+	return string(b)
+}
+
 func (j *journey) requeue(op Op) error {
 	if j.in.Mode == "push" {
 		j.x.mu.Lock()
 		j.x.outcome = op.Outcome
 		j.x.mu.Unlock()
 	}
-	code, body := j.admin(http.MethodPost, "/dlq/requeue", fmt.Sprintf(`{"ids":[%q]}`, j.msgID))
-	var out struct {
-		Requeued int `json:"requeued"`
+	n, code, detail := 0, 0, ""
+	if op.By == "mcp" {
+		ids := make([]any, 0, len(j.msgIDs))
+		for _, id := range j.msgIDs {
+			ids = append(ids, id)
+		}
+		res, isErr, err := j.mcpCall("dlq_requeue", map[string]any{"ids": ids, "reason": "fidelity check"})
+		if err != nil {
+			detail = err.Error()
+		} else if isErr {
+			code, detail = 500, res
+		} else {
+			code = 200
+			var out struct {
+				Requeued int `json:"requeued"`
+			}
+			_ = json.Unmarshal([]byte(res), &out)
+			n = out.Requeued
+		}
+	} else {
+		var body []byte
+		code, body = j.admin(http.MethodPost, "/dlq/requeue", `{"ids":`+j.idsJSON()+`}`)
+		var out struct {
+			Requeued int `json:"requeued"`
+		}
+		_ = json.Unmarshal(body, &out)
+		n = out.Requeued
+		if code != 200 {
+			n = 0
+			detail = strings.TrimSpace(string(body))
+		}
 	}
-	_ = json.Unmarshal(body, &out)
-	n := out.Requeued
-	if code != 200 {
-		n = 0
+	if len(detail) > 200 {
+		detail = detail[:200]
 	}
-	j.emit("Requeue", map[string]any{"outcome": op.Outcome}, map[string]any{"n": n, "status": code})
+	j.emit("Requeue", map[string]any{"outcome": op.Outcome, "by": op.By}, map[string]any{"n": n, "status": code, "detail": detail})
 	if j.in.Mode == "push" {
 		return j.push(op.Outcome, "requeue", op.B)
 	}
@@ -1212,14 +1381,20 @@ func (j *journey) operator(op Op) error {
 	var code int
 	var body []byte
 	if op.Form == "filter" {
-		req := map[string]any{"route": "/in", "limit": 10, "before": j.recvAt.Add(time.Nanosecond).UTC().Format(time.RFC3339Nano)}
+		req := map[string]any{"limit": 10, "before": j.recvAt.Add(time.Nanosecond).UTC().Format(time.RFC3339Nano)}
 		if state != "" {
 			req["state"] = state
 		}
+		path := "/messages/" + verb + "_by_filter"
+		if j.managed {
+			path = j.scoped(path) // the endpoint-scoped path is authoritative: no selector in the body
+		} else {
+			req["route"] = "/in"
+		}
 		b, _ := json.Marshal(req)
-		code, body = j.admin(http.MethodPost, "/messages/"+verb+"_by_filter", string(b))
+		code, body = j.admin(http.MethodPost, path, string(b))
 	} else {
-		code, body = j.admin(http.MethodPost, "/messages/"+verb, fmt.Sprintf(`{"ids":[%q]}`, j.msgID))
+		code, body = j.admin(http.MethodPost, "/messages/"+verb, `{"ids":`+j.idsJSON()+`}`)
 	}
 	var out map[string]any
 	_ = json.Unmarshal(body, &out)
@@ -1242,16 +1417,58 @@ func (j *journey) operator(op Op) error {
 }
 
 func (j *journey) list(op Op) error {
-	q := url.Values{}
-	q.Set("route", "/in")
-	q.Set("include_payload", "1")
-	q.Set("include_headers", "true")
-	q.Set("limit", "50")
-	path := "/messages?"
-	if op.Which == "dlq" {
-		path = "/dlq?"
+	var body []byte
+	errText, enc := "", ""
+	// In admin-proxy mode the MCP server reads at most 1 MiB of an Admin API answer, so a listing that carries a
+	// payload of that size cannot be had through it (it answers with an error, not with other bytes): not asked.
+	capped := (op.Which == "mcp" || op.Which == "mcpdlq") && j.in.Be == "memory" && len(j.payload) > 300<<10
+	switch {
+	case capped:
+	case op.Which == "mcp" || op.Which == "mcpdlq":
+		tool := "messages_list"
+		if op.Which == "mcpdlq" {
+			tool = "dlq_list"
+		}
+		args := map[string]any{"include_payload": true, "include_headers": true, "limit": 50}
+		if j.managed && tool == "messages_list" {
+			args["application"], args["endpoint_name"] = mgApp, mgEndpoint
+		} else {
+			args["route"] = "/in"
+		}
+		res, isErr, err := j.mcpCall(tool, args)
+		switch {
+		case err != nil:
+			errText = err.Error()
+		case isErr:
+			errText = "mcp: " + res
+		default:
+			body = []byte(res)
+		}
+	default:
+		q := url.Values{}
+		q.Set("include_payload", "1")
+		q.Set("include_headers", "true")
+		q.Set("limit", "50")
+		path := "/messages?"
+		switch {
+		case op.Which == "dlq":
+			path = "/dlq?"
+			q.Set("route", "/in")
+		case j.managed:
+			path = j.scoped("/messages?") // endpoint-scoped listing of a managed route
+		default:
+			q.Set("route", "/in")
+		}
+		var code int
+		code, body = j.admin(http.MethodGet, path+q.Encode(), "")
+		if code != 200 {
+			errText = fmt.Sprintf("status %d %s", code, strings.TrimSpace(string(body)))
+			body = nil
+		}
 	}
-	code, body := j.admin(http.MethodGet, path+q.Encode(), "")
+	if len(errText) > 300 {
+		errText = errText[:300]
+	}
 	var out struct {
 		Items []struct {
 			ID         string            `json:"id"`
@@ -1260,35 +1477,64 @@ func (j *journey) list(op Op) error {
 			Headers    map[string]string `json:"headers"`
 		} `json:"items"`
 	}
-	errText, enc := "", ""
-	if code != 200 {
-		errText = fmt.Sprintf("status %d", code)
-	} else if err := json.Unmarshal(body, &out); err != nil {
-		errText = "response is not JSON"
+	if body != nil {
+		if err := json.Unmarshal(body, &out); err != nil {
+			errText = "response is not JSON"
+		}
 	}
 	n, comps := 0, 0
 	var payload []byte
 	var hdr map[string]string
 	st := ""
+	f := noF()
 	for _, it := range out.Items {
-		if strings.HasPrefix(it.ID, compPrefix) {
+		if strings.HasPrefix(it.ID, compPrefix) || strings.HasPrefix(it.ID, "sib_") {
 			comps++
 			continue
 		}
-		n++
-		if n > 1 {
-			continue
-		}
-		st, hdr = it.State, it.Headers
 		p, err := base64.StdEncoding.DecodeString(it.PayloadB64)
 		if err != nil {
 			enc = "payload_b64 is not standard base64"
 			p = []byte(it.PayloadB64)
 		}
-		payload = p
+		n++
+		switch n {
+		case 1:
+			st, hdr, payload = it.State, it.Headers, p
+		case 2:
+			f = j.fObs(p, HeaderList(it.Headers), nil)
+		}
 	}
-	j.emit("List", map[string]any{"which": op.Which}, j.obs(errText, n, payload, HeaderList(hdr), map[string]any{"st": st, "enc": enc, "comps": comps}))
+	j.emit("List", map[string]any{"which": op.Which, "capped": capped}, j.obs(errText, n, payload, HeaderList(hdr), map[string]any{"st": st, "enc": enc, "comps": comps, "f": f}))
 	return nil
+}
+
+// noF / fObs: what was seen of the second stored copy of the message (fan-out routes).
+func noF() map[string]any {
+	return map[string]any{"n": 0, "pl": PL{D: "", N: 0, Diff: -1}, "h": []HV{}, "leak": []string{}, "sig": noSig()}
+}
+
+func (j *journey) fObs(payload []byte, h []HV, sig map[string]any) map[string]any {
+	if sig == nil {
+		sig = noSig()
+	}
+	return map[string]any{"n": 1, "pl": Digest(payload, j.payload), "h": h, "leak": Leaks(j.secrets, headerTexts(h)...), "sig": sig}
+}
+
+func noSig() map[string]any {
+	return map[string]any{"have": "", "want": "", "ts": "", "nsig": 0, "nts": 0}
+}
+
+// sigObs recomputes the delivery signature from the ACCEPTED payload and what the target received:
+// HMAC-SHA256(secret, METHOD \n path \n timestamp \n hex(sha256(body))).
+func (j *journey) sigObs(att Attempt) map[string]any {
+	have := att.WireHeader.Get("X-Hookaido-Signature")
+	ts := att.WireHeader.Get("X-Hookaido-Timestamp")
+	sum := sha256.Sum256(j.payload)
+	mac := hmac.New(sha256.New, []byte(signSecret))
+	mac.Write([]byte(strings.ToUpper(att.Method) + "\n" + att.Path + "\n" + ts + "\n" + hex.EncodeToString(sum[:])))
+	return map[string]any{"have": have, "want": hex.EncodeToString(mac.Sum(nil)), "ts": ts,
+		"nsig": len(att.WireHeader.Values("X-Hookaido-Signature")), "nts": len(att.WireHeader.Values("X-Hookaido-Timestamp"))}
 }
 
 func (j *journey) restart() error {
@@ -1313,43 +1559,82 @@ func (j *journey) push(outcome, after, b string) error {
 			return err
 		}
 	}
+	need := 1
+	if j.in.Fan {
+		need = 2
+		// the copies were nacked one after the other with a longer retry delay; wait until every copy is due
+		if _, _, _, err := j.dump(); err != nil {
+			return err
+		}
+		if d := time.Until(j.nextRun); d > 0 && d < 2*time.Second {
+			time.Sleep(d + time.Millisecond)
+		}
+	}
+	mid := 0
 	x.mu.Lock()
 	x.outcome = outcome
-	before := len(x.attempts)
+	x.inStep, x.need = 0, need
+	before, fbefore := len(x.attempts), len(x.fan)
 	kbefore := len(x.companions)
+	x.between = nil
+	if j.in.Fan {
+		// other traffic between the per-target deliveries: runs while the first delivery is being answered
+		x.between = func() {
+			_, acc := j.otherTraffic(Op{K: "handler", Sz: "same"}, 1)
+			mid += acc
+		}
+	}
 	x.mu.Unlock()
 	for len(x.arrived) > 0 {
 		<-x.arrived
 	}
 	j.g.Open()
-	arrived := false
-	select {
-	case <-x.arrived:
-		arrived = true
-	case <-time.After(8 * time.Second):
+	arrivals := 0
+	timeout := time.After(25 * time.Second)
+wait:
+	for arrivals < need {
+		select {
+		case <-x.arrived:
+			arrivals++
+		case <-timeout:
+			break wait
+		}
 	}
 	j.g.Close()
 	errText := ""
-	n := 0
-	var att Attempt
+	n, fn := 0, 0
+	var att, fatt Attempt
 	x.mu.Lock()
 	if len(x.attempts) > before {
 		att = x.attempts[before]
 		n = len(x.attempts) - before
 	}
+	if len(x.fan) > fbefore {
+		fatt = x.fan[fbefore]
+		fn = len(x.fan) - fbefore
+	}
 	x.outcome = ""
+	x.between = nil
 	x.mu.Unlock()
-	if !arrived || n == 0 {
+	if n == 0 {
 		errText = "no delivery arrived at the target"
+	} else if j.in.Fan && fn == 0 {
+		errText = "no delivery arrived at the second target"
 	} else {
-		// wait until the dispatcher has applied the lease action
-		deadline := time.Now().Add(5 * time.Second)
+		// wait until the dispatcher has applied the lease action(s)
+		deadline := time.Now().Add(15 * time.Second)
 		for {
 			rows, _, _, err := j.dump()
 			if err != nil {
 				return err
 			}
-			if len(rows) == 0 || rows[0].St != "leased" || time.Now().After(deadline) {
+			leased := false
+			for _, r := range rows {
+				if r.St == "leased" {
+					leased = true
+				}
+			}
+			if !leased || time.Now().After(deadline) {
 				break
 			}
 			time.Sleep(300 * time.Microsecond)
@@ -1363,6 +1648,9 @@ func (j *journey) push(outcome, after, b string) error {
 		// the companion was ready together with the message and is part of the same micro-batch of the dispatcher;
 		// give its delivery a moment, then take it out of the way
 		deadline := time.Now().Add(2 * time.Second)
+		if j.in.Fan {
+			deadline = time.Now().Add(50 * time.Millisecond) // batches of two: it may not have been taken at all
+		}
 		for {
 			x.mu.Lock()
 			got := len(x.companions) > kbefore
@@ -1386,13 +1674,27 @@ func (j *journey) push(outcome, after, b string) error {
 		}
 		x.mu.Unlock()
 	}
-	if att.Unexpected {
+	if att.Unexpected || fatt.Unexpected {
 		errText = "delivery without a scheduled outcome"
 	}
 	h := HeaderListMulti(att.Header)
 	wh := HeaderListMulti(att.WireHeader)
+	sig := noSig()
+	if j.in.Sg && n > 0 {
+		sig = j.sigObs(att)
+	}
+	f := noF()
+	if fn > 0 {
+		var fsig map[string]any
+		if j.in.Sg {
+			fsig = j.sigObs(fatt)
+		}
+		f = j.fObs(fatt.Body, HeaderListMulti(fatt.Header), fsig)
+		f["wleak"] = Leaks(j.secrets, headerTexts(HeaderListMulti(fatt.WireHeader))...)
+		f["n"] = fn
+	}
 	extra := map[string]any{"wh": wh, "wleak": Leaks(j.secrets, headerTexts(wh)...), "method": att.Method, "enc": "",
-		"k": kObs(want, kp, kh, compP)}
+		"k": kObs(want, kp, kh, compP), "f": f, "sig": sig, "mid": mid}
 	j.emit("Push", map[string]any{"outcome": outcome, "after": after, "b": b}, j.obs(errText, n, att.Body, h, extra))
 	return nil
 }
